@@ -505,15 +505,17 @@ def c30_clauses(a, b):
 
 # --------------------------------------------------------------------------- requests for the added driver heads
 
-def request_head(head, case):
+def request_head(head, case, *extra):
     r = S.request(case)
-    return (head,) + tuple(r[1:])
+    if r == ("unmodelled",):
+        return r
+    return (head,) + tuple(extra) + tuple(r[1:])
 
 
 class PairObs(tuple):
     """(view of run 1, view of run 2) = the reply the driver must print; raw dicts as .a / .b"""
     def __new__(cls, a, b):
-        o = super().__new__(cls, (S.obs_view(a), S.obs_view(b)))
+        o = super().__new__(cls, ("unmodelled",) if a.get("unmodelled") else (S.obs_view(a), S.obs_view(b)))
         o.a = a
         o.b = b
         o.d = a
@@ -521,6 +523,244 @@ class PairObs(tuple):
 
     def __reduce__(self):
         return (PairObs, (self.a, self.b))
+
+
+class CancelObs(tuple):
+    """view of the CANCELLED ado run (= the reply of the driver head adocancel); .a = reference do() run, .b = cancelled run"""
+    def __new__(cls, a, b):
+        o = super().__new__(cls, S.obs_view(b))
+        o.a = a
+        o.b = b
+        o.d = b
+        return o
+
+    def __reduce__(self):
+        return (CancelObs, (self.a, self.b))
+
+
+def run_cancelled(case, j):
+    """the REAL Doist.ado as an asyncio task that is cancelled by ANOTHER task while it is suspended at its (j+1)-th
+    `await asyncio.sleep(0.0)`"""
+    import asyncio
+    import gc
+    core.assert_tree()
+    _, tock, start, limit, pool, specs = case
+    rec = S.Rec()
+    doist = S.make_doist(rec, tock, start, limit)
+    rec.sched[0] = doist
+    doers = [S.build(rec, sp, 0) for sp in specs]
+    rec.pools[0] = [S.build(rec, sp, 0) for sp in pool]
+
+    async def canceller(t):
+        # ado suspends once per cycle (await asyncio.sleep(0.0)); this task gets one turn per suspension (FIFO ready queue)
+        for _ in range(j):
+            await asyncio.sleep(0.0)
+        t.cancel()          # no-op when ado has already returned
+
+    async def main():
+        t = asyncio.ensure_future(doist.ado(doers=doers))
+        c = asyncio.ensure_future(canceller(t))
+        try:
+            await t
+        finally:
+            c.cancel()
+    raised, n = "-", None
+    gc_was = gc.isenabled()
+    gc.disable()
+    try:
+        loop = asyncio.SelectorEventLoop()
+        try:
+            try:
+                loop.run_until_complete(main())
+                n = len(rec.log)
+            except asyncio.CancelledError:
+                n = len(rec.log)
+                raised = "cancelled"
+            except S.SchedErr:
+                n = len(rec.log)
+                raised = "err"
+            except KeyboardInterrupt:
+                n = len(rec.log)
+                raised = "kbint"
+            except SystemExit:
+                n = len(rec.log)
+                raised = "sysexit"
+            except Exception as ex:
+                n = len(rec.log)
+                raised = "other:" + type(ex).__name__
+        finally:
+            loop.close()
+        gc.collect(1)
+    finally:
+        if gc_was:
+            gc.enable()
+    ids = sorted(rec.obj)
+    leaf0 = S.Leaf(rec, ("leaf", -1, "doify", "ok", []), 0)
+    return dict(unmodelled=False, trace=rec.log[:n], late=rec.log[n:], flags=[(i, bool(rec.obj[i].done)) for i in ids],
+                done=bool(doist.done), tyme=doist.tyme, raised=raised, doers=leaf0.ids_of(doist.doers))
+
+
+# --------------------------------------------------------------------------- run SEQUENCES: the same doer objects under two Doists
+
+def run_second(case, first, mode="do"):
+    """Build the doer objects of `case` ONCE, run them under a first Doist A (same tock, start tyme first[0], limit first[1] — usually
+    cut short), then under a FRESH Doist B with the start tyme and limit of `case`; returns the observation of the SECOND run only.
+    A run must not depend on earlier runs of the same doer objects: tymth is injected again by every enter (the model has no such
+    state at all), so this observation is compared with the model's run of `case` and with the flat/nested/ado twin."""
+    import asyncio
+    import gc
+    core.assert_tree()
+    _, tock, start, limit, pool, specs = case
+    rec = S.Rec()
+    doers, poolobjs = None, None
+    out = None
+    gc_was = gc.isenabled()
+    gc.disable()
+    try:
+        for k, (st, lim) in enumerate([(first[0], first[1]), (start, limit)]):
+            doist = S.make_doist(rec, tock, st, lim)
+            rec.sched[0] = doist
+            if doers is None:
+                doers = [S.build(rec, sp, 0) for sp in specs]
+                poolobjs = [S.build(rec, sp, 0) for sp in pool]
+            rec.pools[0] = poolobjs
+            n0 = len(rec.log)
+            raised, n = "-", None
+            try:
+                if mode == "do" or k == 0:
+                    doist.do(doers=doers)
+                else:
+                    loop = asyncio.SelectorEventLoop()
+                    try:
+                        loop.run_until_complete(doist.ado(doers=doers))
+                    finally:
+                        loop.close()
+                n = len(rec.log)
+            except S.SchedErr:
+                n = len(rec.log)
+                raised = "err"
+            except KeyboardInterrupt:
+                n = len(rec.log)
+                raised = "kbint"
+            except SystemExit:
+                n = len(rec.log)
+                raised = "sysexit"
+            except Exception as ex:
+                n = len(rec.log)
+                raised = "other:" + type(ex).__name__
+            except S.Runaway:
+                rec.dead = True
+                n = len(rec.log)
+                raised = "other:Runaway"
+            gc.collect(1)
+            ids = sorted(rec.obj)
+            leaf0 = S.Leaf(rec, ("leaf", -1, "doify", "ok", []), 0)
+            out = dict(unmodelled=S.unmodelled(case), trace=rec.log[n0:n], late=rec.log[n:], flags=[(i, bool(rec.obj[i].done)) for i in ids],
+                       done=bool(doist.done), tyme=doist.tyme, raised=raised, doers=leaf0.ids_of(doist.doers), first_raised=None)
+            if k == 0:
+                first_obs = out
+        out["first_raised"] = first_obs["raised"]
+        out["first_tyme"] = first_obs["tyme"]
+    finally:
+        if gc_was:
+            gc.enable()
+    return out
+
+
+def gen_first(rng, case):
+    """(start tyme, limit) of the first Doist: mostly cut short, often ending AHEAD of the second run's start tyme"""
+    t = float(case[1])
+    return (rng.choice([0.0, 1.0, 2.5, 100.1, float(case[2]) + 7 * t, float(case[2])]), rng.choice([t, 2.5 * t, 3 * t, 4.1 * t, 7 * t, None, None]))
+
+
+class SeqCases:
+    """mixin for the scheduler checks: a case is a run case or ("seq", (start1, limit1), runcase) — `runcase` is what is observed and
+    what the model is asked; the doer objects have been run before under another Doist"""
+    seq_share = 0.3
+
+    @staticmethod
+    def base(case):
+        return case[2] if case[0] == "seq" else case
+
+    def with_seq(self, rng, cases):
+        for c in cases:
+            if c[0] == "run" and rng.random() < self.seq_share and op_free(c) and fault_free(c) and not S.unmodelled(c) \
+                    and (c[3] is not None or not S.has_always(list(c[5]))):
+                f = gen_first(rng, c)
+                if f[1] is None and S.has_always(list(c[5])):
+                    f = (f[0], 3 * float(c[1]))
+                yield ("seq", f, c)
+            else:
+                yield c
+
+    def seq_corpus(self, cases):
+        return [("seq", f, c) for c in cases for f in ((0.0, 3.0 * float(c[1])), (float(c[2]) + 5.0, 2.5 * float(c[1])))
+                if op_free(c) and fault_free(c) and (c[3] is not None or not S.has_always(list(c[5])))]
+
+    def shrink(self, case):
+        if case[0] == "seq":
+            yield case[2]
+            for c in super().shrink(case[2]):
+                yield ("seq", case[1], c)
+        elif case[0] == "run":
+            yield from super().shrink(case)
+
+    def mutate(self, rng, case):
+        if case[0] == "seq":
+            return [("seq", case[1], c) for c in super().mutate(rng, case[2]) if op_free(c) and fault_free(c)]
+        return super().mutate(rng, case) if case[0] == "run" else []
+
+    def nontrivial(self, case, obs):
+        return super().nontrivial(self.base(case), obs)
+
+    def features(self, case, obs):
+        f = super().features(self.base(case), obs)
+        if case[0] == "seq":
+            f.append("second-run-of-the-same-doer-objects")
+            if obs.d.get("first_tyme") is not None and obs.d["first_tyme"] > float(case[2][2]):
+                f.append("first-doist-ended-ahead-of-second-start")
+        return f
+
+
+def c30_cancel_clauses(case, j, ref, c):
+    """what a cancelled ado must still guarantee (ref = the uncancelled do() run of the same program)"""
+    bad = []
+    if c["raised"] != "cancelled":
+        # the run ended before the (j+1)-th await: nothing may differ from the blocking run
+        return ["uncancelled-ado-differs-from-do:" + x for x in c30_clauses(ref, c)]
+    tr = c["trace"]
+    sb = [n for n, e in enumerate(tr) if e[1] == "stopBeg"]
+    if len(sb) != 1 or tr[-1][1] != "stopEnd":
+        return ["cancelled-ado-did-not-run-exit-once"]
+    if tr[:sb[0]] != ref["trace"][:sb[0]]:
+        bad.append("schedule-before-cancellation-differs-from-do")
+    if c["done"]:
+        bad.append("done-true-after-cancellation")
+    t = float(case[2])
+    for _ in range(j + 1):
+        t += float(case[1])
+    if c["tyme"] != t:
+        bad.append("cancelled-ado-tyme-is-not-j+1-ticks")
+    if c["late"]:
+        bad.append("doer-exited-only-by-gc-after-cancellation")
+    # every entered doer is exited, forced exits in reverse enter order of the live ones
+    state = {}
+    for e in tr:
+        if e[1] == "enter":
+            state[e[0]] = "live"
+        elif e[1] == "exit":
+            state[e[0]] = "idle"
+    if any(v == "live" for v in state.values()):
+        bad.append("entered-doer-not-exited-after-cancellation")
+    top = [sp[1] for sp in case[5]]
+    pos = {}
+    for n, e in enumerate(tr[:sb[0]]):
+        if e[1] == "enter" and e[0] in top:
+            pos[e[0]] = n
+    closed = [e[0] for e in tr[sb[0]:] if e[1] == "cease" and e[0] in pos]
+    if op_free(case) and [pos[i] for i in closed] != sorted((pos[i] for i in closed), reverse=True):
+        bad.append("forced-exits-not-in-reverse-enter-order")
+    return bad
 
 
 class TObs(S.Obs):
